@@ -5,6 +5,7 @@ stand-in only (operation sequences on the real dotdict against an independent ne
 core rides along: two fragment contracts on the real _resolve (the `..` parent-level reduction step and the
 first-segment split), discharged for all strings by cvc5.
 """
+from .util import distinct_keys
 import copy
 import itertools
 import random
@@ -412,7 +413,7 @@ def bounded(tier, seed):
         if len(violations) >= 8:
             break
     samples = [dict(sequence=repr([rng.choice(OPS) for _ in range(4)]))]
-    return dict(evaluations=ev, distinct_nontrivial=len(distinct),
+    return dict(evaluations=ev, distinct_nontrivial=len(distinct), distinct_keys=distinct_keys(distinct),
                 rule='operations: set (scalars, plain dicts incl. dotted keys, lists of mappings) / get / in / del / pop / pop-with-default / setdefault on %d paths '
                      '(plain, nested to depth 3, leading dot, `..` parent, name[i], nested m.l[1].a, index expressions l[a] and l[m.i]), attribute assignment, update, '
                      'reserved names, copy and deepcopy; every single operation (fresh and after a list setup), all pairs of %d operations, seeded random sequences '
